@@ -957,19 +957,14 @@ Proof. intros H. step_inv H. apply andb_prop in E. destruct E as [_ E]. exact E.
 (* ====================================================================================== *)
 Lemma C10_outcome s p o same s' :
   step s (ExecEnd p o same) = Some s' ->
-  p_st (pay s p) = PDone o /\ is_exec (p_origin (pay s p)) = true /\
-  (same = true \/ (p_flav (pay s p) = Aio /\ o = ORaiseExc aio_copied_exc)).
+  p_st (pay s p) = PDone o /\ is_exec (p_origin (pay s p)) = true /\ same = true.
 Proof.
   intros H. step_inv H.
   repeat match goal with [X : _ && _ = true |- _] => apply andb_prop in X; destruct X end.
   assert (Ho : o = o0).
   { destruct o, o0; cbn in *; try discriminate; try reflexivity;
       match goal with [X : (_ =? _) = true |- _] => apply Nat.eqb_eq in X; subst; reflexivity end. }
-  subst o0. split; [reflexivity|]. split; [assumption|].
-  match goal with [X : _ || _ = true |- _] => apply orb_prop in X; destruct X as [X|X]; [left; exact X|];
-    right; apply andb_prop in X; destruct X as [X1 X2] end. split.
-  - destruct (p_flav (pay s p)); cbn in X1; try discriminate; reflexivity.
-  - destruct o; cbn in X2; try discriminate. apply Nat.eqb_eq in X2. subst. reflexivity.
+  subst o0. split; [reflexivity|]. split; assumption.
 Qed.
 
 (* frame: calling execute and receiving its result touch no runner record, not the guard, and no
